@@ -20,6 +20,8 @@ MANIFEST = {
             "violation too); this check concentrates on the inputs where guards and special-case branches run.",
     "technique": "bounded-exhaustive enumeration of degenerate inputs x configurations; totality and pairs-vs-triples differential oracle",
 }
+MANIFEST["text"] += " " + (
+    'Added after the seeding waves: triples with datetime time stamps, the named graphs with small noise (internal guards must not fire), non-emitting noise smaller than the emitting one, and the SQLite backend with small numeric time stamps and a finite initial radius.')
 BUDGET = {"quick": 420, "thorough": 3000}
 RULE = ("states = (input, configuration, metric) pairs of runs, transitions = matcher executions, traces validated = pairs-vs-triples "
         "comparisons; non-trivial = the trace contains an observation exactly on a node/edge, a repeat, or the map has a zero-length "
